@@ -129,3 +129,60 @@ func DeepInput(t *rapid.T, c *cfg.CFG) []int {
 	tail := rapid.SliceOfN(rapid.SampledFrom(terms), 0, 4).Draw(t, "deepTail")
 	return append(out, tail...)
 }
+
+// DeepPattern is a terminal sequence that can be repeated (behind Lead) without
+// leaving the language's prefixes, as far as 12 repetitions tell: nested
+// brackets, right recursion, lists.
+type DeepPattern struct{ Lead, Pat []int }
+
+// DeepPatterns finds such sequences (lead of at most one terminal, pattern of
+// one or two) with the Earley recogniser.
+func DeepPatterns(c *cfg.CFG, e *cfg.Earley) []DeepPattern {
+	terms := inputTerms(c)
+	var leads [][]int
+	leads = append(leads, nil)
+	for _, t := range terms {
+		leads = append(leads, []int{t})
+	}
+	var pats [][]int
+	for _, a := range terms {
+		pats = append(pats, []int{a})
+		for _, b := range terms {
+			if a != b {
+				pats = append(pats, []int{a, b})
+			}
+		}
+	}
+	var out []DeepPattern
+	for _, l := range leads {
+		for _, p := range pats {
+			in := append([]int{}, l...)
+			for k := 0; k < 12; k++ {
+				in = append(in, p...)
+			}
+			if e.ViablePrefixLen(in) == len(in) {
+				out = append(out, DeepPattern{Lead: l, Pat: p})
+			}
+		}
+		if len(out) > 40 {
+			break
+		}
+	}
+	return out
+}
+
+// DeepInputFrom is DeepInput that prefers a repeatable pattern when there is one.
+func DeepInputFrom(t *rapid.T, c *cfg.CFG, pats []DeepPattern) []int {
+	if len(pats) == 0 || rapid.IntRange(0, 3).Draw(t, "deepBlind") == 0 {
+		return DeepInput(t, c)
+	}
+	p := pats[rapid.IntRange(0, len(pats)-1).Draw(t, "deepPatternOf")]
+	n := rapid.IntRange(105, 150).Draw(t, "deepLenP")
+	out := append([]int{}, p.Lead...)
+	for len(out) < n {
+		out = append(out, p.Pat...)
+	}
+	terms := inputTerms(c)
+	tail := rapid.SliceOfN(rapid.SampledFrom(terms), 0, 4).Draw(t, "deepTailP")
+	return append(out, tail...)
+}
